@@ -3,7 +3,7 @@
 # (never /repo): (1) applies, builds, whole existing test suite passes; (2) demo FAILS with the change;
 # (3) demo PASSES without it. Prints CONFIRMED or the reason it is not.
 set -u
-ID="$1"; M="$2"; OUT=/tmp/wt/$ID-out; W=/tmp/wt/confirm
+ID="$1"; M="$2"; OUT=/tmp/wt/$ID-out; W=${CONFIRM_W:-/tmp/wt/confirm}; L=/tmp/wt/confirm_$(basename $W)
 [ -d "$W" ] || git -C /repo worktree add --detach "$W" HEAD -q
 cd "$W" || exit 2
 git checkout -q -- . ; git clean -fdq -e target
@@ -13,7 +13,7 @@ demo=$(ls "$OUT"/${M}_demo.* 2>/dev/null | head -1)
 [ -f "$patch" ] && [ -n "$demo" ] || { echo "$ID $M: missing deliverables"; exit 2; }
 git apply --check "$patch" 2>/dev/null || { echo "$ID $M: NOT-CONFIRMED patch does not apply"; exit 1; }
 git apply "$patch"
-if ! cargo test --workspace --offline >/tmp/wt/confirm_suite.log 2>&1; then
+if ! cargo test --workspace --offline >${L}_suite.log 2>&1; then
   echo "$ID $M: NOT-CONFIRMED existing test suite fails with the change"; git checkout -q -- .; exit 1
 fi
 case "$demo" in
@@ -25,10 +25,10 @@ case "$demo" in
     feat=""; grep -q "verif-hooks" "$demo" && [ $pkg = alpha_g_physics ] && feat="--features verif-hooks"
     head -12 "$demo" | grep -q -- "--release" && feat="$feat --release"
     mkdir -p "$crate_dir/tests"; cp "$demo" "$place"
-    run_demo() { cargo test --offline -p $pkg $feat --test $name >/tmp/wt/confirm_demo.log 2>&1; }
+    run_demo() { cargo test --offline -p $pkg $feat --test $name >${L}_demo.log 2>&1; }
     ;;
-  *.sh) cp "$demo" ./demo_$M.sh; run_demo() { bash ./demo_$M.sh >/tmp/wt/confirm_demo.log 2>&1; } ;;
-  *.py) cp "$demo" ./demo_$M.py; run_demo() { python3 ./demo_$M.py >/tmp/wt/confirm_demo.log 2>&1; } ;;
+  *.sh) cp "$demo" ./demo_$M.sh; run_demo() { bash ./demo_$M.sh >${L}_demo.log 2>&1; } ;;
+  *.py) cp "$demo" ./demo_$M.py; run_demo() { python3 ./demo_$M.py >${L}_demo.log 2>&1; } ;;
 esac
 run_demo; with=$?
 git apply -R "$patch"
